@@ -28,7 +28,7 @@ EXPLANATION = (
     "using callee mutation summaries). Dispatch: every (method, solution_method) of the quantifier reaches a solver and "
     "unknown strings raise. Exception escape: under the pinned numba a try/except lexically inside a loop of a nopython "
     "function whose handler assigns a local and does not leave the loop only catches the first exception (established "
-    "by experiment); no such shape may be reachable from the estimators. Not decided: non-negativity of MEM for "
+    "by experiment); no such shape may be reachable from the estimators. R05.7: module-level solver defaults are never written in place (may-alias dataflow). Not decided: non-negativity of MEM for "
     "unrealisable moments, 'integrates to one' as a floating-point statement, convergence."
 )
 
